@@ -869,3 +869,44 @@ Fixpoint index_loop (strict : bool) (fuel : nat) (l : list Z) (gs : list (list Z
 
 Definition parse_index (strict : bool) (text : list Z) : index_result :=
   index_loop strict (S (length text)) text [].
+
+(* ---------------------------------------------------------------- parse modes and key_already_set *)
+
+(* _get_keyval_scalar_<double> called several times for the SAME keyword on one parser object (different texts and
+   parse modes): key_set_modes[key] makes the outcome of a call depend on the earlier ones.
+   req = parse_required, ovr = parse_override (parse_normal and parse_deprecated contain it; the echo and
+   deprecation-warning bits only write to the log). *)
+Inductive kv_value := KvInit | KvDefault | KvUser (d : dec).
+Record kv_state := { kv_set : bool; kv_val : kv_value }.
+Record kv_out := { ko_found : bool; ko_err : bool; ko_val : kv_value }.
+
+Definition kv_call (st : kv_state) (req ovr : bool) (conf key : list Z) : kv_state * kv_out :=
+  let r := key_string_values conf key in
+  let multi := (1 <? ksv_count r)%nat in
+  match ksv_data r with
+  | _ :: _ =>
+    (* a value text: parsed; mark_key_set_user on success only *)
+    match scalar_value extract_real (ksv_data r) with
+    | SAccept d => ({| kv_set := true; kv_val := KvUser d |},
+                    {| ko_found := true; ko_err := ksv_err r || multi; ko_val := KvUser d |})
+    | SReject => (* error; the destination gets the default, the key is not marked *)
+                 ({| kv_set := kv_set st; kv_val := KvDefault |},
+                  {| ko_found := true; ko_err := true; ko_val := KvDefault |})
+    end
+  | [] =>
+    if ksv_found r then
+      (* keyword without a value: error for a number; the destination gets the default, the key is not marked *)
+      ({| kv_set := kv_set st; kv_val := KvDefault |}, {| ko_found := true; ko_err := true; ko_val := KvDefault |})
+    else if req then
+      (* error_key_required: silent if the key was set before on this object *)
+      (st, {| ko_found := false; ko_err := ksv_err r || negb (kv_set st); ko_val := kv_val st |})
+    else if ovr || negb (kv_set st) then
+      ({| kv_set := true; kv_val := KvDefault |}, {| ko_found := false; ko_err := ksv_err r; ko_val := KvDefault |})
+    else (st, {| ko_found := false; ko_err := ksv_err r; ko_val := kv_val st |})
+  end.
+
+Fixpoint kv_seq (st : kv_state) (key : list Z) (calls : list (bool * bool * list Z)) : list kv_out :=
+  match calls with
+  | [] => []
+  | (req, ovr, conf) :: rest => let '(st', o) := kv_call st req ovr conf key in o :: kv_seq st' key rest
+  end.
